@@ -45,6 +45,40 @@ type Prog struct {
 	PkgTag     bool  `json:"enabled_by_package_tag"`
 	Interfaces bool  `json:"deepcopy_interfaces_tag"`
 	Generic    bool  `json:"generic_root"`
+	// hand-written methods of every type of the package, in a file that is loaded before (1) or after (2)
+	// the generated one (0: none): what a second run sees next to the generated DeepCopy methods
+	UserMethods int `json:"user_methods_file,omitempty"`
+}
+
+// userMethods declares, for every struct / defined type of the program, methods with one non-pointer
+// parameter, one non-pointer result, and one of each.
+func (p Prog) userMethods(pkg string, need map[string]bool) string {
+	recv := []string{"A"}
+	if p.Generic {
+		recv = []string{"A[T]"}
+	}
+	for _, k := range []string{"Sub", "Dep", "Deep", "MyInt", "MyMap"} {
+		if need[k] {
+			recv = append(recv, k)
+		}
+	}
+	if need["Deep"] {
+		recv = append(recv, "Mid", "Leaf")
+	}
+	for _, k := range []string{"G", "UG"} {
+		if need[k] {
+			recv = append(recv, k+"[T]")
+		}
+	}
+	var b strings.Builder
+	b.WriteString("package " + pkg + "\n\n")
+	for _, r := range recv {
+		fmt.Fprintf(&b, "func (%s) Describe(names ...string) ([]string, bool) { return names, false }\n\n", r)
+		fmt.Fprintf(&b, "func (%s) Weight() int { return 0 }\n\n", r)
+		fmt.Fprintf(&b, "func (%s) Accept(v int) {}\n\n", r)
+		fmt.Fprintf(&b, "func (%s) Scale(v float64) float64 { return v }\n\n", r)
+	}
+	return b.String()
 }
 
 func (p Prog) String() string {
@@ -52,10 +86,10 @@ func (p Prog) String() string {
 	for _, f := range p.Fields {
 		fs = append(fs, fieldKinds[f].name)
 	}
-	return fmt.Sprintf("A{%s} pkgtag=%v interfaces=%v generic=%v", strings.Join(fs, ", "), p.PkgTag, p.Interfaces, p.Generic)
+	return fmt.Sprintf("A{%s} pkgtag=%v interfaces=%v generic=%v user-methods-file=%d", strings.Join(fs, ", "), p.PkgTag, p.Interfaces, p.Generic, p.UserMethods)
 }
 
-func (p Prog) source(pkg string) (src, check string) {
+func (p Prog) source(pkg string) (src, check, methods string) {
 	var b strings.Builder
 	b.WriteString("// Package " + pkg + " is a C17 case.\n")
 	if p.PkgTag {
@@ -131,7 +165,10 @@ func (p Prog) source(pkg string) (src, check string) {
 		}
 	}
 	cb.WriteString("\treturn\n}\n")
-	return b.String(), cb.String()
+	if p.UserMethods != 0 {
+		methods = p.userMethods(pkg, need)
+	}
+	return b.String(), cb.String(), methods
 }
 
 type Case struct {
@@ -174,8 +211,14 @@ func checkProgs(c *core.Ctx, progs []Prog) {
 	byDir := map[string]Prog{}
 	for i, p := range progs {
 		name := fmt.Sprintf("k%05d", i)
-		src, chk := p.source(name)
+		src, chk, methods := p.source(name)
 		t["p/"+name+"/types.go"] = src
+		switch p.UserMethods {
+		case 1:
+			t["p/"+name+"/methods.go"] = methods
+		case 2:
+			t["p/"+name+"/zzz_methods.go"] = methods // sorts after zz_generated.deepcopy.go
+		}
 		checks["p/"+name+"/verif_check.go"] = chk
 		dirs = append(dirs, "p/"+name)
 		byDir["p/"+name] = p
@@ -334,6 +377,17 @@ func run(c *core.Ctx) {
 		}
 		c.Bound("three_field_lists_over_kinds", []string{"[]int", "tagged-struct", "untagged-dependency-struct", "nested-3-levels", "defined-scalar", "defined-map", "error", "instantiated-generic", "same-package-interface"})
 	}
+	// hand-written methods next to the generated ones (the second run loads both)
+	for _, p := range append([]Prog{}, all...) {
+		if len(p.Fields) > 2 || (!c.Thorough() && (p.PkgTag || p.Interfaces)) {
+			continue
+		}
+		for um := 1; um <= 2; um++ {
+			p.UserMethods = um
+			all = append(all, p)
+		}
+	}
+	c.Bound("user_methods_files", []string{"none", "methods.go (loaded before the generated file)", "zzz_methods.go (loaded after it)"})
 	c.Bound("programs", len(all))
 	const batch = 300
 	for i := 0; i < len(all); i += batch {
@@ -357,7 +411,7 @@ func replay(c *core.Ctx, raw json.RawMessage) {
 func init() {
 	core.Register(&core.Prop{
 		ID: "C17", Level: "model_checking", Run: run, Replay: replay, Shards: 4,
-		Rule:        "(seam build: the second generation runs under descending map order in library and generator) every root struct with 1..2 fields (ordered; plus all 3-field lists over the same-package kinds) over 16 field kinds (scalars, string, slices/maps of scalars, tagged same-package struct, untagged dependency struct, 3-level nesting through untagged dependencies, defined scalar, defined map, error, any, named interface, field of an instantiated generic struct) x enabling tag on package vs on type x gengo:deepcopy:interfaces on/off x generic root (bare type-parameter field); each package generated TWICE by the real generator through the real pipeline (outputs compared), compiled with the package, and exercised by a harness-written check (nil, DeepEqual, mutate every reachable slice/map of the copy then compare the original with a snapshot, DeepCopyInto). Non-trivial = 2 fields; states = distinct (field count, tag placement, interfaces, failed?)",
+		Rule:        "(seam build: the second generation runs under descending map order in library and generator) every root struct with 1..2 fields (ordered; plus all 3-field lists over the same-package kinds) over 16 field kinds (scalars, string, slices/maps of scalars, tagged same-package struct, untagged dependency struct, 3-level nesting through untagged dependencies, defined scalar, defined map, error, any, named interface, field of an instantiated generic struct) x enabling tag on package vs on type x gengo:deepcopy:interfaces on/off x generic root (bare type-parameter field) x hand-written methods (one non-pointer parameter / result) on every type in a file loaded before / after the generated one; each package generated TWICE by the real generator through the real pipeline (outputs compared), compiled with the package, and exercised by a harness-written check (nil, DeepEqual, mutate every reachable slice/map of the copy then compare the original with a snapshot, DeepCopyInto). Non-trivial = 2 fields; states = distinct (field count, tag placement, interfaces, failed?)",
 		Assumptions: []string{"pointer fields, slices of structs and slices over type parameters are outside the stated domain"},
 	})
 }
